@@ -784,6 +784,11 @@ def check_C11(ctx, rep):
             rep.ob('C11.R2', fs, 'deserialises-with-limit', okl, '')
     # ---- R3
     check_validate_before_ok(ctx, rep, 'C11.R3')
+    rep.rule('C11.R7', 'Machine::new stores each parameter in the same-named field; the v1 parser passes its decoded header values in that order; '
+             'MAX_DECOMPRESSED_SIZE is the documented 1 MiB')
+    check_machine_new_table(ctx, rep, 'C11.R7')
+    rep.ob('C11.R7', 'constants', 'MAX_DECOMPRESSED_SIZE-is-1MiB', int(prog.const_val('maybenot::constants::MAX_DECOMPRESSED_SIZE')) == 1 << 20,
+           'MAX_DECOMPRESSED_SIZE = %s' % prog.const_val('maybenot::constants::MAX_DECOMPRESSED_SIZE'))
     # ---- R4
     reach = set()
     work = ['maybenot::machine::Machine']
@@ -901,3 +906,20 @@ def check_C11(ctx, rep):
                         'v1 parser accesses with non-constant bounds are out of scope (need a relational numeric domain)',
                         'Read::read returns at most buf.len()']
     return 'pipeline structure of Machine::from_str/serialize, bounded inflate, validate-before-Ok, serde derive completeness, constant-bound slice guards of the v1 parser'
+
+
+def check_machine_new_table(ctx, rep, rid):
+    """Machine::new stores its i-th parameter in the i-th declared field (u64/u64 and f64/f64 pairs could be swapped silently)"""
+    prog, an = ctx.prog, ctx.an
+    mn = prog.fn(FW, 'Machine', 'new')
+    fa = an.get(mn)
+    order = [f['name'] for f in prog.adt('maybenot::machine::Machine')['variants'][0]['fields']]
+    aggs = aggregates(fa, 'machine::Machine')
+    rep.count_exact(rid, 'Machine aggregates in Machine::new', len(aggs), 1)
+    rep.ob(rid, mn, 'one-parameter-per-field', len(mn.inputs) == len(order), 'parameters %d, fields %d' % (len(mn.inputs), len(order)))
+    for (site, var, flds, ln) in aggs:
+        for j, f in enumerate(order):
+            e = flds.get(f)
+            x = unload(e) if e is not None else None
+            pi = e[1] if e is not None and e[0] == 'param' else (x[1] if x is not None and x[0] == 'local' else None)
+            rep.ob(rid, mn, 'field:' + f, pi == j + 1, '%s = parameter #%s' % (f, pi))
